@@ -234,9 +234,9 @@ fn hkdf_run(digest: &str, salt: &[u8], ikm: &[u8], info: &[u8], l: usize, used: 
             };
             let mut prk = vec![0u8; $n];
             hkdf_extract(mk(), salt, ikm, &mut prk);
-            let mut okm = vec![0xa5u8; l];
+            let mut okm = crate::rng::Aligned::dirty(0xa5a5 ^ info.len() as u64, l); // dirty, misaligned destination
             hkdf_expand(mk(), &prk, info, &mut okm);
-            (prk, okm)
+            (prk, okm.to_vec())
         }};
     }
     match digest {
@@ -252,13 +252,13 @@ fn pbkdf2_run(prf: u64, pw: &[u8], salt: &[u8], c: u32, l: usize) -> Vec<u8> {
     use cryptoxide::hmac::Hmac;
     use cryptoxide::pbkdf2::pbkdf2;
     use cryptoxide::{sha1, sha2};
-    let mut out = vec![0x3cu8; l];
+    let mut out = crate::rng::Aligned::dirty(0x3c3c ^ salt.len() as u64, l);
     match prf {
         0 => pbkdf2(&mut Hmac::new(sha1::Sha1::new(), pw), salt, c, &mut out),
         1 => pbkdf2(&mut Hmac::new(sha2::Sha256::new(), pw), salt, c, &mut out),
         _ => pbkdf2(&mut Hmac::new(sha2::Sha512::new(), pw), salt, c, &mut out),
     }
-    out
+    out.to_vec()
 }
 
 pub fn argon2_params(ty: u64, version: u64, t: u32, p: u32, m: u32) -> cryptoxide::kdf::argon2::Params {
@@ -363,9 +363,9 @@ impl Scenario for KdfProbe {
                     obs.hit("kdf.scrypt");
                     let out = guarded(|| {
                         let params = cryptoxide::scrypt::ScryptParams::new(log_n, r, p);
-                        let mut out = vec![0x77u8; l];
+                        let mut out = crate::rng::Aligned::dirty(op.seed ^ 0x7777, l);
                         cryptoxide::scrypt::scrypt(&a, &b, &params, &mut out);
-                        out
+                        out.to_vec()
                     })
                     .map_err(|m| Violation::new("unexpected-panic", i, "scrypt on valid input", m, "scrypt"))?;
                     obs.out(&out);
@@ -382,9 +382,9 @@ impl Scenario for KdfProbe {
                     obs.hit("kdf.argon2");
                     let out = guarded(|| {
                         let params = argon2_params(ty, ver, tt, p, m);
-                        let mut tag = vec![0x11u8; l];
+                        let mut tag = crate::rng::Aligned::dirty(op.seed ^ 0x1111, l);
                         cryptoxide::kdf::argon2::argon2_at(&params, &a, &salt, &key, &c, &mut tag);
-                        tag
+                        tag.to_vec()
                     })
                     .map_err(|m| Violation::new("unexpected-panic", i, "argon2 on valid input", m, "argon2"))?;
                     obs.out(&out);
